@@ -30,6 +30,7 @@ PROPS = {
     },
     "C06": {
         "gens": ["C06", "C06K"],
+        "extra_engines": ["C06S"],
         "feature": "c06",
         "model_exe": "askar_model_c06",
         "rule": "(a) statement-fault enumeration on a file-backed store: every mutating call (insert/replace with 0..4 tags (thorough: 0..8), remove, remove_all with/without filter) x fault point (k-th tag insert for k = 0..max, tag delete, item insert, item update, item delete; injected as SQLite RAISE(ABORT) triggers through a second connection), each followed by a full ordered dump and further calls on the same session; non-trivial = at least one fault was actually reached in a multi-statement call and at least one faulted call went through unaffected; (b) SIGKILL campaign: a child process runs 6-20 calls (inserts/replaces with 20-60 tags, removes, remove_all) and acknowledges each; the parent kills it after a random number of acknowledgements plus 0-3 ms, reopens with the same key, and the dump must equal the reference state after the acknowledged prefix or one call more, and the store must accept insert/fetch/remove; non-trivial = killed before the end of the sequence; distinct = hash",
